@@ -1,22 +1,24 @@
 #!/bin/sh
 # usage: tools/try_mutant.sh <patch.diff> <prop> [<prop> ...]
-# Applies the patch to a scratch worktree of /repo (never to /repo itself), runs the quick checks against it with
-# evidence/replays redirected to scratch, prints the VIOLATION / KNOWN-FINDING lines and exit codes, and cleans up.
+# Applies the patch to a scratch worktree of the repository (never to /repo itself), runs the quick checks of THIS checkout of /verif
+# against it with evidence/replays redirected to scratch, prints the VIOLATION / KNOWN-FINDING lines and exit codes, and cleans up.
 set -u
+HERE=$(cd "$(dirname "$0")/.." && pwd)
+BASE_REPO=${VERIF_BASE_REPO:-/repo}
 PATCH="$1"; shift
 WT=/tmp/mutrepo-$$
-git -C /repo worktree add -q --detach "$WT" HEAD || exit 2
-if ! git -C "$WT" apply "$PATCH"; then echo "PATCH DOES NOT APPLY"; git -C /repo worktree remove --force "$WT"; exit 2; fi
+git -C "$BASE_REPO" worktree add -q --detach "$WT" HEAD || exit 2
+if ! git -C "$WT" apply "$PATCH"; then echo "PATCH DOES NOT APPLY"; git -C "$BASE_REPO" worktree remove --force "$WT"; exit 2; fi
 OUTD=/tmp/mutout-$$; mkdir -p "$OUTD/evidence" "$OUTD/out"
 for P in "$@"; do
   START=$(date +%s)
-  VERIF_REPO="$WT" VERIF_EVIDENCE_DIR="$OUTD/evidence" VERIF_OUT_DIR="$OUTD/out" /verif/check "$P" > "$OUTD/$P.log" 2>&1
+  VERIF_REPO="$WT" VERIF_EVIDENCE_DIR="$OUTD/evidence" VERIF_OUT_DIR="$OUTD/out" "$HERE/check" "$P" > "$OUTD/$P.log" 2>&1
   RC=$?
   echo "== $P rc=$RC ($(( $(date +%s) - START ))s)"
   grep -E "^VIOLATION|^  \(" "$OUTD/$P.log" | head -6
   [ "$RC" = "2" ] && { grep -B2 -A45 "most recent call first" "$OUTD/$P.log" | head -120; tail -5 "$OUTD/$P.log"; }
 done
-git -C /repo worktree remove --force "$WT"
-# restore the generated tables to /repo's state
-(cd /verif && /venv/bin/python -m vf.extract_tables >/dev/null && cd lean && lake build Pog driver >/dev/null 2>&1)
+git -C "$BASE_REPO" worktree remove --force "$WT"
+# restore the generated tables to the repository's own state
+(cd "$HERE" && VERIF_REPO="$BASE_REPO" /venv/bin/python -m vf.extract_tables >/dev/null && cd lean && lake build Pog driver >/dev/null 2>&1)
 rm -rf "$OUTD"
